@@ -43,6 +43,7 @@ class H7(H9):
         H9.__init__(self)
         self.signs = Signs(set(POS))
         self.infinitesimal = set()
+        self.ray = None       # jets.Jets along a ray y = p + t d, t -> 0+
 
     def at_point(self, r):
         """The expression at t = 0 (decisions near the point p)."""
@@ -106,13 +107,15 @@ class H7(H9):
             if r.is_zero():
                 if self.infinitesimal and mdiff_depends_any(
                         cond.rat, self.infinitesimal):
-                    raise Undecided('the designated point lies on a region '
-                                    'boundary: %r' % (cond.rat,))
+                    if self.ray is None:
+                        raise Undecided('the designated point lies on a '
+                                        'region boundary: %r' % (cond.rat,))
+                    sg = self.ray.lead_sign(cond.rat, 'a region test')
+                    return {'Lt': sg < 0, 'LtE': sg <= 0, 'Gt': sg > 0,
+                            'GtE': sg >= 0, 'eq0': sg == 0}[k]
                 return {'Lt': False, 'LtE': True, 'Gt': False, 'GtE': True,
                         'eq0': True}[k]
-            sg = PA.rat_sign(r, self.signs)
-            if sg is None:
-                sg = PA.const_sign(r)
+            sg = PA.full_sign(r, self.signs)
             if sg is None and k == 'eq0':
                 return False              # generic parameters
             if sg is None:
@@ -125,10 +128,16 @@ class H7(H9):
         x, y = to_rat(x), to_rat(y)
         d = PA.reduce_full(self.at_point(x - y))
         if d.is_zero():
+            if not PA.reduce_full(x - y).n.is_zero() and self.infinitesimal \
+                    and mdiff_depends_any(x - y, self.infinitesimal):
+                if self.ray is None:
+                    raise Undecided('max / min with a tie at the designated '
+                                    'point')
+                sg = self.ray.lead_sign(x - y, 'a max / min tie')
+                big, small = (x, y) if sg >= 0 else (y, x)
+                return big if name.startswith('max') else small
             return x
-        sg = PA.rat_sign(d, self.signs)
-        if sg is None:
-            sg = PA.const_sign(d)
+        sg = PA.full_sign(d, self.signs)
         if sg is None:
             raise Undecided('max / min of %r and %r' % (x, y))
         big, small = (x, y) if sg > 0 else (y, x)
@@ -260,7 +269,7 @@ def builders(model):
         B['KullbackLeibler[prior g,%s]' % t] = (
             lambda I, w=w: inst(I, 'KullbackLeibler', X(w), prior=point(
                 X(w), [S('e4'), S('e5'), S('e4') + S('e5'), 2 * S('e4')])),
-            pos, 'smooth')
+            pos, 'smooth, no rays')    # rays: expression swell (20 s)
         B['ZeroFunctional[%s]' % t] = (
             lambda I, w=w: inst(I, 'ZeroFunctional', X(w)), gen, 'smooth')
         B['ConstantFunctional[%s]' % t] = (
@@ -283,14 +292,17 @@ def builders(model):
         t = {None: 'unweighted', 'const': 'weight w'}[w]
         B['IndicatorSumConstraint[shape 2x2,%s]' % t] = (
             lambda I, w=w: inst(I, 'IndicatorSumConstraint', NSpace(
-                (2, 2), 'float64', None if w is None else S('w'))), gen,
+                (2, 2), 'float64', None if w is None else S('w')),
+                sum_rtol=0), gen,
             ('sum', Rat.const(1)))
         B['IndicatorSumConstraint[shape 4,%s]' % t] = (
-            lambda I, w=w: inst(I, 'IndicatorSumConstraint', X(w)), gen,
+            lambda I, w=w: inst(I, 'IndicatorSumConstraint', X(w),
+                                sum_rtol=0), gen,
             ('sum', Rat.const(1)))
     B['IndicatorSumConstraint[product space 2 x 2]'] = (
         lambda I: inst(I, 'IndicatorSumConstraint', NPSpace(
-            [NSpace((2,), 'float64'), NSpace((2,), 'float64')])), gen,
+            [NSpace((2,), 'float64'), NSpace((2,), 'float64')]),
+            sum_rtol=0), gen,
         ('sum', Rat.const(1)))
     # group norm on a power space whose weights are squares r_i^2 of
     # positive symbols, at points whose pointwise norms are 5 sigma and
@@ -307,10 +319,124 @@ def builders(model):
                  NSpace((2,), 'float64', S('w'))], wt)),
             [3 * sig / a0, 3 * sig / a0, 4 * sig / a1, Rat.const(0)],
             'smooth')
+    B.update(ray_builders(model, inst, X))
     B['IndicatorSumConstraint[product space 1 + 3]'] = (
         lambda I: inst(I, 'IndicatorSumConstraint', NPSpace(
-            [NSpace((1,), 'float64'), NSpace((3,), 'float64')])), gen,
+            [NSpace((1,), 'float64'), NSpace((3,), 'float64')]),
+            sum_rtol=0), gen,
         ('sum', Rat.const(1)))
+    return B
+
+
+def ray_builders(model, inst, X):
+    """Instances decided by the directional condition only (kind 'ray')."""
+    sig, r0 = S('sig'), S('r0')
+    B = {}
+    for w, t, a in ((None, 'unweighted', Rat.const(1)),
+                    (r0 * r0, 'weight r0^2', r0)):
+        def sp(w=w, n=4):
+            return NSpace((n,), 'float64', w)
+        out = [3 * sig / a, -4 * sig / a, Rat.const(0), Rat.const(0)]
+        ins = [sig / (4 * a), -sig / (4 * a), sig / (4 * a), sig / (4 * a)]
+        B['L2Norm[%s, ||x|| = 5 sigma]' % t] = (
+            lambda I, sp=sp: inst(I, 'L2Norm', sp()), out, 'ray')
+        B['L2Norm[%s, ||x|| = sigma / 2]' % t] = (
+            lambda I, sp=sp: inst(I, 'L2Norm', sp()), ins, 'ray')
+    for w, t in ((None, 'unweighted'), (Rat.const(2), 'weight 2'),
+                 (Rat.const(1) / 2, 'weight 1/2')):
+        def sp(w=w, n=4):
+            return NSpace((n,), 'float64', w)
+        # sup norm: the two largest entries are cut to a common level
+        B['LpNorm[p=inf,%s]' % t] = (
+            lambda I, sp=sp: inst(I, 'LpNorm', sp(), Opaque('np.inf')),
+            [5 * sig, -4 * sig, sig, Rat.const(0)], 'ray')
+        B['IndicatorLpUnitBall[p=1,%s]' % t] = (
+            lambda I, sp=sp: inst(I, 'IndicatorLpUnitBall', sp(), 1),
+            [Rat.const(2), Rat.const(-1), Rat.const(1) / 4, Rat.const(0)],
+            'ray')
+        B['IndicatorLpUnitBall[p=2,%s]' % t] = (
+            lambda I, sp=sp: inst(I, 'IndicatorLpUnitBall', sp(), 2),
+            [Rat.const(3), Rat.const(-4), Rat.const(0), Rat.const(0)],
+            'ray')
+        B['IndicatorLpUnitBall[p=inf,%s]' % t] = (
+            lambda I, sp=sp: inst(I, 'IndicatorLpUnitBall', sp(),
+                                  Opaque('np.inf')),
+            [Rat.const(3), Rat.const(-4), Rat.const(1) / 2, Rat.const(0)],
+            'ray')
+        B['IndicatorSimplex[%s]' % t] = (
+            lambda I, sp=sp: inst(I, 'IndicatorSimplex', sp(), sum_rtol=0),
+            [Rat.const(2), Rat.const(1), Rat.const(-1), Rat.const(1) / 2],
+            'ray')
+    # product spaces of two components with two points each; entries in
+    # the order (component 0: points 0, 1; component 1: points 0, 1)
+    for wt, t in ((None, 'pspace'), ([Rat.const(4), Rat.const(9)],
+                                     'pspace weights 4, 9')):
+        def ps(wt=wt, w=None):
+            return NPSpace([NSpace((2,), 'float64', w),
+                            NSpace((2,), 'float64', w)], wt)
+        a0, a1 = (1, 1) if wt is None else (2, 3)
+        one = Rat.const(1)
+        # point 0 has pointwise norm 5 (projected), point 1 norm 1/2 (kept)
+        B['IndicatorGroupL1UnitBall[p=2,%s]' % t] = (
+            lambda I, ps=ps: inst(I, 'IndicatorGroupL1UnitBall', ps()),
+            [3 * one / a0, one / (4 * a0), 4 * one / a1, Rat.const(0)],
+            'ray')
+        B['IndicatorGroupL1UnitBall[p=inf,%s]' % t] = (
+            lambda I, ps=ps: inst(I, 'IndicatorGroupL1UnitBall', ps(),
+                                  Opaque('np.inf')),
+            [3 * one, one / 4, -4 * one, one / 2], 'ray')
+        # group norm with one point below the threshold (mapped to zero)
+        B['GroupL1Norm[%s, one group below sigma]' % t] = (
+            lambda I, ps=ps: inst(I, 'GroupL1Norm', ps()),
+            [3 * sig / a0, sig / (4 * a0), 4 * sig / a1, sig / (4 * a1)],
+            'ray')
+        gam = S('gam')
+        B['Huber[%s]' % t] = (
+            lambda I, ps=ps: inst(I, 'Huber', ps(), gam),
+            [3 * (sig + gam) / a0, (sig + gam) / (4 * a0),
+             4 * (sig + gam) / a1, Rat.const(0)], 'ray')
+    for w, t in ((None, 'unweighted'), (Rat.const(2), 'weight 2')):
+        def sp(w=w, n=4):
+            return NSpace((n,), 'float64', w)
+        pos = [S('e0'), 2 * S('e1'), -S('e2'), Rat.const(0)]
+        B['KullbackLeibler.convex_conj[%s]' % t] = (
+            lambda I, sp=sp: I.getattr_value(inst(
+                I, 'KullbackLeibler', sp()), 'convex_conj'),
+            [-S('e0'), -2 * S('e1'), Rat.const(1) / 2, Rat.const(0)], 'ray')
+        B['L1Norm.convex_conj[%s]' % t] = (
+            lambda I, sp=sp: I.getattr_value(inst(
+                I, 'L1Norm', sp()), 'convex_conj'),
+            [Rat.const(3), Rat.const(-2), Rat.const(1) / 2, Rat.const(0)],
+            'ray')
+        B['L2Norm.convex_conj[%s]' % t] = (
+            lambda I, sp=sp: I.getattr_value(inst(
+                I, 'L2Norm', sp()), 'convex_conj'),
+            [Rat.const(3), Rat.const(-4), Rat.const(0), Rat.const(0)],
+            'ray')
+        B['L2NormSquared.convex_conj[%s]' % t] = (
+            lambda I, sp=sp: I.getattr_value(inst(
+                I, 'L2NormSquared', sp()), 'convex_conj'),
+            [S('e0'), -S('e1'), 2 * S('e2'), Rat.const(0)], 'ray')
+    # matrix-valued functions: 2 x 2 matrices in one point, diagonal with
+    # decided order of the singular values (the SVD model of `H7`)
+    def mat(n=1):
+        col = NPSpace([NSpace((n,), 'float64'), NSpace((n,), 'float64')])
+        return NPSpace([col, NPSpace([NSpace((n,), 'float64'),
+                                      NSpace((n,), 'float64')])])
+    zero = Rat.const(0)
+    for e, et in ((1, '1'), (2, '2'), (Opaque('np.inf'), 'inf')):
+        for pt, pn in (([4 * sig, zero, zero, 3 * sig],
+                        'diag(4 sigma, 3 sigma)'),
+                       ([2 * sig / 5, zero, zero, 3 * sig / 10],
+                        'diag(2 sigma / 5, 3 sigma / 10)'),
+                       ([4 * sig, zero, zero, sig / 2],
+                        'diag(4 sigma, sigma / 2)'),
+                       ([4 * sig, zero, zero, zero], 'rank one')):
+            if et == '2' and pn == 'diag(4 sigma, sigma / 2)':
+                continue          # irrational norm of the singular values
+            B['NuclearNorm[singular exp %s, %s]' % (et, pn)] = (
+                lambda I, e=e: inst(I, 'NuclearNorm', mat(), 1, e), pt,
+                'ray')
     return B
 
 
@@ -442,37 +568,196 @@ def run_one(model, build, entries):
     return probs, ps, fy
 
 
-def run(rep, model):
-    n = 0
-    for name, (b, entries, kind) in builders(model).items():
-        n += 1
-        rel, line = _where(model, name)
+def directions(xs, ps, coordinate_only=False):
+    """The finite family of rays used by the directional condition:
+    +-e_j, +-(e_j +- e_k) and +-(x - p)."""
+    n = len(ps)
+    one, zero = Rat.const(1), Rat.const(0)
+    out = []
+
+    def unit(j, s=1):
+        return [one * s if i == j else zero for i in range(n)]
+    for j in range(n):
+        out.append(('+e%d' % j, unit(j)))
+        out.append(('-e%d' % j, unit(j, -1)))
+    for j in range(n):
+        if coordinate_only:
+            break
+        for k in range(j + 1, n):
+            for sj in (1, -1):
+                for sk in (1, -1):
+                    d = unit(j, sj)
+                    d[k] = one * sk
+                    out.append(('%se%d%se%d' % ('+-'[sj < 0], j,
+                                                '+-'[sk < 0], k), d))
+    seg = [PA.reduce_full(x - q) for x, q in zip(xs, ps)]
+    if not all(v.is_zero() for v in seg):
+        out.append(('x-p', seg))
+        out.append(('p-x', [-v for v in seg]))
+    return out
+
+
+def _is_inf(v):
+    if isinstance(v, Opaque):
+        return 'inf' in v.desc
+    if isinstance(v, float):
+        return v == float('inf')
+    return False
+
+
+def run_directional(model, build, entries, sigma=None, wit=None,
+                    coordinate_only=False):
+    """Necessary optimality condition of the proximal problem along rays:
+    for every direction d of a finite family the one-sided derivative of
+    t -> f(p + t d) + ||p + t d - x||^2 / (2 sigma) at t = 0+ is >= 0 (f's
+    own `_call` is evaluated on the ray and expanded by `jets`); f(p) is
+    finite.  Returns (problems, p, number of rays)."""
+    from ..jets import Jets
+    wit = wit or WIT
+    H = H7()
+    I = I7(model, {}, H)
+    f = build(I)
+    dom = I.getattr_value(f, 'domain')
+    sig = S('sig') if sigma is None else sigma
+    prox = I.call(I.getattr_value(f, 'proximal'), [sig], {})
+    p = I.call(prox, [mk_point(dom, entries)], {})
+    if isinstance(p, NA):
+        p = H.element(I, dom, p)
+    ps = [PA.reduce_full(v) for v in flat(p)]
+    for j, v in enumerate(ps):
+        if _poison(v):
+            return (['entry %d of the result is not a finite number: %s'
+                     % (j, _s(v))], ps, 0)
+    xs = [PA.reduce_full(PA.ired(to_rat(v))) for v in entries]
+    ws = entry_weights(dom)
+    if len(ps) != len(xs):
+        return ['the result has %d entries' % len(ps)], ps, 0
+    fp = I.call(f, [mk_point(dom, ps)], {})
+    if _is_inf(fp):
+        return ['f(p) is infinite at p = %s' % _s([repr(v) for v in ps])], \
+            ps, 0
+    t = S('t')
+    probs = []
+    nd = 0
+    for label, d in directions(xs, ps, coordinate_only):
+        H.infinitesimal = {'t'}
+        H.ray = Jets('t', H.signs)
         try:
-            if isinstance(kind, tuple):
-                probs, ps, fy = run_projection(model, b, entries, kind)
-            else:
-                probs, ps, fy = run_one(model, b, entries)
-        except (Undecided, Fork) as e:
-            rep.undecided('R6', name, str(e), rel)
-            continue
-        except ZeroDivisionError:
-            rep.undecided('R6', name, 'the result sits at a point where the '
-                          'value is not differentiable (division by zero in '
-                          'the symbolic derivative)', rel)
-            continue
-        except NotAnElement as e:
-            rep.violation('R6', name, 'a call yields no element: %s' % e, rel)
-            continue
-        except PyRaise as e:
-            rep.violation('R6', name, 'raises %s at `%s`' % (
-                e.name, ast.unparse(e.node)[:70] if e.node is not None
-                else '?'), rel, getattr(e.node, 'lineno', None))
-            continue
-        if probs:
-            rep.violation('R6', name, '; '.join(probs[:2]), rel, line)
+            fy = I.call(f, [mk_point(dom, [q + t * dj
+                                           for q, dj in zip(ps, d)])], {})
+            if _is_inf(fy):
+                nd += 1
+                continue             # the ray leaves the domain of f
+            jet = H.ray.jet(PA.ired(to_rat(fy)))
+            slope = jet.b
+            for j in range(len(ps)):
+                slope = slope + ws[j] * (ps[j] - xs[j]) * d[j] / sig
+            slope = PA.reduce_full(slope)
+            try:
+                sg = H.ray.sign(slope, 'the directional derivative')
+            except Undecided:
+                sg = None
+                vals = []
+                for env in wit:
+                    try:
+                        vals.append(PA.num_eval(slope, env))
+                    except Undecided:
+                        vals = []
+                        break
+                if vals and any(v < -1e-9 * max(1.0, abs(v)) for v in vals):
+                    sg = -1
+                elif vals and all(abs(v) < 1e-9 for v in vals) and \
+                        PA.same(slope, Rat.const(0), wit):
+                    sg = 0
+                else:
+                    raise
+        finally:
+            H.infinitesimal = set()
+            H.ray = None
+        nd += 1
+        if sg < 0:
+            probs.append('along d = %s the objective f(z) + ||z - x||^2 / '
+                         '(2 sigma) decreases from p = %s: one-sided slope '
+                         '%s' % (label, _s([repr(v) for v in ps]),
+                                 _s(slope)))
+            if len(probs) >= 2:
+                break
+    return probs, ps, nd
+
+
+def _poison(r):
+    if isinstance(r, Opaque):
+        return True
+    if not isinstance(r, Rat):
+        return False
+    for v in r.vars():
+        if isinstance(v, str) and v.startswith(('uninit', 'garbage', 'nan',
+                                                'inf')):
+            return True
+    return False
+
+
+def _guarded(rep, rule, name, rel, line, fn):
+    """Run one evaluation; map the interpreter's outcomes to verdicts.
+    Returns the value of fn() or None."""
+    try:
+        return fn()
+    except (Undecided, Fork) as e:
+        rep.undecided(rule, name, str(e), rel)
+    except ZeroDivisionError:
+        rep.undecided(rule, name, 'the result sits at a point where the '
+                      'value is not differentiable (division by zero in '
+                      'the symbolic derivative)', rel)
+    except NotAnElement as e:
+        rep.violation(rule, name, 'a call yields no element: %s' % e, rel)
+    except PyRaise as e:
+        src = ast.unparse(e.node)[:70] if e.node is not None else '?'
+        if e.name == 'ZeroDivisionError':
+            rep.violation(rule, name, 'divides by an entry that is exactly '
+                          'zero at `%s` (NumPy yields inf / nan there, the '
+                          'result is not finite)' % src, rel,
+                          getattr(e.node, 'lineno', None))
         else:
-            rep.holds('R6', name, '%s at the designated point; p = %s' % (
-                'normal-cone condition of the set' if isinstance(kind, tuple)
-                else 'first-order optimality of the proximal problem',
-                _s([repr(v) for v in ps])))
+            rep.violation(rule, name, 'raises %s at `%s`' % (e.name, src),
+                          rel, getattr(e.node, 'lineno', None))
+    return None
+
+
+def run(rep, model):
+    n = nray = 0
+    for name, (b, entries, kind) in builders(model).items():
+        rel, line = _where(model, name)
+        if kind != 'ray':
+            n += 1
+            r = _guarded(rep, 'R6', name, rel, line, lambda: (
+                run_projection(model, b, entries, kind)
+                if isinstance(kind, tuple) else run_one(model, b, entries)))
+            if r is not None:
+                probs, ps, fy = r
+                if probs:
+                    rep.violation('R6', name, '; '.join(probs[:2]), rel,
+                                  line)
+                else:
+                    rep.holds('R6', name, '%s at the designated point; '
+                              'p = %s' % (
+                                  'normal-cone condition of the set'
+                                  if isinstance(kind, tuple) else
+                                  'first-order optimality of the proximal '
+                                  'problem', _s([repr(v) for v in ps])))
+        # the directional condition: every instance (coordinate rays only
+        # where the equality above already decides the smooth directions)
+        if kind == 'smooth, no rays':
+            continue
+        nray += 1
+        r = _guarded(rep, 'R6d', name, rel, line, lambda: run_directional(
+            model, b, entries, coordinate_only=(kind == 'smooth')))
+        if r is None:
+            continue
+        probs, ps, nd = r
+        if probs:
+            rep.violation('R6d', name, '; '.join(probs[:2]), rel, line)
+        else:
+            rep.holds('R6d', name, 'f(p) finite and no descent along %d '
+                      'rays from p = %s' % (nd, _s([repr(v) for v in ps])))
     rep.floor('R6', 'evaluated proximal instances', n, 20)
+    rep.floor('R6d', 'instances of the directional condition', nray, 80)
